@@ -6,6 +6,9 @@ values, loops with bounded counters, arrays, re-allocation of freed addresses), 
 application (registers, arrays and the unit module persist), several applications in sequence on the same node,
 plus a malformed stream (one faulty instruction per subroutine: undefined register, unallocated / doubly
 allocated / out-of-range address, T, rotations, bad array index, modulus 0, control = target, node at capacity).
+40% of the cases run on a node whose REGISTER limit (1-3) is below its qubit capacity: a qalloc is then refused by
+the register limit (quantumError) as well as by the qubit limit (noQubitError), anywhere in an application; the next
+subroutines re-allocate the refused address (after a qfree, or after a merge freed a register) and StopApp follows.
 Each subroutine is assembled by netqasm from text, framed and fed to the REAL NetQASMProtocol /
 SubroutineHandler / executioner on real virtual nodes (harness/simnet.NqNet, via harness/nqcase.Runner).
 
@@ -14,11 +17,18 @@ ONE ideal register (NumPy state vector), run on the very instruction objects QNo
 reported outcomes: the reply messages must be equal, every reported outcome must have non-zero probability, the
 operation trace observed at `executioner.call_method` must hit the same qubits (tokens), and after every message
 the joint state of the node's registers (snapshot generator matrices, reordered to token order) must stabilise
-the reference vector.
+the reference vector.  The reference knows the node's two limits: qubits held, and simulation registers in use
+(one per new qubit, two merged for good by a two-qubit gate across them, gone with their last qubit); a qalloc is
+an error exactly when the address is bad / taken or one of the limits is reached, and a refused qalloc leaves the
+address free (the generator works from the reference's allocation state, not from the unit module under test).
 
 Tie: the same messages (instruction list rendered from the deserialised subroutine — harness/nqcase.render_instr —
 plus the observed outcomes) go to the Lean driver `nqexec`; replies, token-level operation trace, unit module,
 used physical ids, qubitList -> tokens, held count, registers and arrays are compared verbatim per message.
+The model's node has a qubit capacity and no register limit: a plain qalloc refused by the register limit is shown
+to the driver as an instruction that raises without effect (nqcase.Runner._tie_prog), so the tie demands exact
+roll-back of the real code on that and every later message; a refusal inside a loop takes the rest of the case out
+of the tie (oracle only; counted as `tie:messages-oracle-only`).
 
 Gen: harness/gen/dispatch.py regenerates lean/SqVerif/Gen/Dispatch.lean from the AST (SIMULAQRON_OPS,
 ROTATION_AXIS, the remote_* methods of virtualQubit / simulatedQubit, the apply_* methods of the engines);
@@ -58,6 +68,8 @@ ASSUMPTIONS = [
     "has no step bound), the model's fuel is 100000 instructions",
     "measure-directly / remote-state-preparation entanglement requests and wait_* instructions are not modelled "
     "(C08's domain)",
+    "the node's register limit is not in the Lean model (NqExec.Node has `cap` only): refusals by it are judged by "
+    "the reference interpreter (which counts registers) and enter the tie as an observed failing instruction",
 ]
 
 G1S = ["x", "y", "z", "h", "k", "s"]
@@ -81,6 +93,7 @@ class ProgGen:
     def __init__(self, rng, maxq):
         self.rng, self.maxq = rng, maxq
         self.nlabel = 0
+        self.retry = None      # address whose qalloc the NODE refused last (qubit or register limit), still free
 
     def sync(self, um, regs, arrays):
         self.alloc = set(i for i, p in enumerate(um) if p is not None)
@@ -260,10 +273,26 @@ class ProgGen:
             return ["set R8 1", "array R8 @3", "set R8 0", "store R15 @3[R8]"]
         return None
 
+    def retry_lines(self):
+        """re-allocation of the address the node refused: must work as soon as the node has room again (a slot is
+        freed first most of the time; whether that also frees a register depends on the merges so far)"""
+        rng = self.rng
+        a, self.retry = self.retry, None
+        if a is None or a in self.alloc or a >= self.maxq or rng.random() < 0.35:
+            return []
+        lines = []
+        al = sorted(self.alloc)
+        if al and rng.random() < 0.75:
+            v = rng.choice(al)
+            self.alloc.discard(v)
+            lines += ["set Q2 %d" % v, "qfree Q2"]
+        self.alloc.add(a)
+        return lines + ["set Q3 %d" % a, "qalloc Q3"] + (["init Q3"] if rng.random() < 0.5 else [])
+
     def subroutine(self, fault=None, budget=None):
         rng = self.rng
         budget = budget or rng.randrange(3, 12)
-        lines = []
+        lines = self.retry_lines()
         where = rng.randrange(budget) if fault else -1
         for i in range(budget):
             if i == where:
@@ -304,8 +333,10 @@ def execute(case, gen_rng=None, res=None):
     generated on the fly (adapting to the observed allocation state) from case["plan"] and recorded into
     case["msgs"].  -> (violations [(key, what, index of message)], runner)"""
     node = "Alice"
-    runner = nqcase.Runner(["Alice", "Bob"], case["cap"], random.Random(case["seed"]))
+    regs = case.get("regs")               # register limit of the node (None: out of reach)
+    runner = nqcase.Runner(["Alice", "Bob"], case["cap"], random.Random(case["seed"]), max_regs=regs)
     ref = nqcase.Reference()
+    free_regs = (lambda: regs - ref.registers()) if regs is not None else None
     viol = []
     refapp = None
     held = lambda: len(ref.tokens)        # noqa: E731
@@ -321,7 +352,9 @@ def execute(case, gen_rng=None, res=None):
             return None
         step = plan.pop(0)
         if step[0] == "sub":
-            pg.sync(*current_state(runner, node))
+            # allocation state as the REFERENCE has it (an address whose qalloc was refused is free)
+            _um, rdef, arrs = current_state(runner, node)
+            pg.sync([refapp.qmap.get(a) for a in range(pg.maxq)], rdef, arrs)
             m = ["sub", step[1], pg.subroutine(fault=step[2])]
         else:
             m = list(step)
@@ -336,7 +369,7 @@ def execute(case, gen_rng=None, res=None):
         kind = m[0]
         if kind == "init":
             rec = runner.send(node, "init", app=m[1], maxq=m[2])
-            refapp = nqcase.RefApp(ref, m[2], lambda: case["cap"] - held())
+            refapp = nqcase.RefApp(ref, m[2], lambda: case["cap"] - held(), free_regs)
             if gen_rng is not None:
                 pg = ProgGen(gen_rng, m[2])
             if [r[0] for r in rec["replies"]] != ["MsgDoneMessage"]:
@@ -378,6 +411,14 @@ def execute(case, gen_rng=None, res=None):
             got_ops = [nqcase.show_op(o) for o in rec["ops"]]
             if res is not None:
                 res.count("sub:error" if err else "sub:ok")
+            if err and rec["prog"][at].mnemonic == "qalloc":
+                a = refapp.regs.get(nqcase._reg(rec["prog"][at].reg))
+                if a is not None and 0 <= a < refapp.maxq and a not in refapp.qmap:     # refused by the node
+                    why = "qubit-limit" if case["cap"] - held() <= 0 else "register-limit"
+                    if res is not None:
+                        res.count("qalloc-refused:" + why)
+                    if pg is not None:
+                        pg.retry = a
             line = runner.failing_line(rec) if "err" in got_replies else None
             if line is not None and line < len(rec["prog"]) and (not err or at != line):
                 mn = rec["prog"][line].mnemonic
@@ -433,31 +474,34 @@ def shrink(case, key):
             if shows(c):
                 best, changed = c, True
                 break
-    last = best["msgs"][-1]
-    if last[0] == "sub":
-        lines = last[2].split("\n")
+    for mi in range(len(best["msgs"]) - 1, -1, -1):       # fewer lines in every remaining subroutine, last first
+        cur = best["msgs"][mi]
+        if cur[0] != "sub":
+            continue
+        lines = cur[2].split("\n")
         i = 0
         while i < len(lines):
             cand = lines[:i] + lines[i + 1:]
-            c = dict(best, msgs=best["msgs"][:-1] + [["sub", last[1], "\n".join(cand)]])
+            c = dict(best, msgs=best["msgs"][:mi] + [["sub", cur[1], "\n".join(cand)]] + best["msgs"][mi + 1:])
             if cand and shows(c):
                 lines = cand
             else:
                 i += 1
-        best["msgs"] = best["msgs"][:-1] + [["sub", last[1], "\n".join(lines)]]
+        best["msgs"] = best["msgs"][:mi] + [["sub", cur[1], "\n".join(lines)]] + best["msgs"][mi + 1:]
     best.pop("plan", None)
     return best
 
 
-def plan_for(rng, thorough):
-    """[init app maxq | sub app fault | stop app] for 1-3 applications in sequence"""
+def plan_for(rng, thorough, tight=False):
+    """[init app maxq | sub app fault | stop app] for 1-3 applications in sequence; `tight` (node with a small
+    register limit): more subroutines per application, so that refused allocations are followed by further work"""
     plan = []
     napps = rng.randrange(1, 4)
     app = rng.randrange(3)
     for _ in range(napps):
         maxq = rng.randrange(2, 5)
         plan.append(("init", app, maxq))
-        for _ in range(rng.randrange(1, 5)):
+        for _ in range(rng.randrange(2, 6) if tight else rng.randrange(1, 5)):
             fault = rng.choice(FAULTS) if rng.random() < 0.3 else None
             plan.append(("sub", app, fault))
         plan.append(("stop", app))
@@ -488,6 +532,22 @@ FIXED = [
                                    ["sub", 0, "set Q0 1\nqalloc Q0\nset Q0 2\nqalloc Q0\nset Q0 0\nqalloc Q0"],
                                    ["sub", 0, "set Q0 1\nx Q0\nmeas Q0 M0\nret_reg M0"], ["stop", 0],
                                    ["init", 1, 2], ["sub", 1, "set Q0 0\nqalloc Q0\nset Q1 1\nqalloc Q1"], ["stop", 1]]},
+    # register limit 1 below the qubit capacity: the second qalloc is refused by the REGISTER limit; the address is
+    # allocated once the first qubit is gone, the application stops cleanly, the next one starts from scratch
+    {"seed": 7, "cap": 3, "regs": 1, "msgs": [["init", 0, 3],
+                                              ["sub", 0, "set Q0 0\nqalloc Q0\nset Q0 1\nqalloc Q0"],
+                                              ["sub", 0, "set Q0 1\nh Q0"],
+                                              ["sub", 0, "set Q0 0\nqfree Q0\nset Q0 1\nqalloc Q0\ninit Q0\nx Q0\nmeas Q0 M0\nret_reg M0"],
+                                              ["stop", 0],
+                                              ["init", 1, 2], ["sub", 1, "set Q0 1\nqalloc Q0\nset Q1 0\nqalloc Q1"], ["stop", 1]]},
+    # register limit 2: refused, then room is made by MERGING two registers (cnot), not by freeing; a qubit freed
+    # out of a merged register does not give its register back; refused again at the end, stop with the refusal last
+    {"seed": 8, "cap": 4, "regs": 2, "msgs": [["init", 0, 4],
+                                              ["sub", 0, "set Q0 0\nqalloc Q0\nset Q1 1\nqalloc Q1\nset Q2 2\nqalloc Q2"],
+                                              ["sub", 0, "set Q0 0\nset Q1 1\nh Q0\ncnot Q0 Q1\nset Q2 2\nqalloc Q2\nx Q2"],
+                                              ["sub", 0, "set Q0 0\nqfree Q0\nset Q3 3\nqalloc Q3"],
+                                              ["sub", 0, "set Q2 2\nqfree Q2\nset Q3 3\nqalloc Q3\nset Q0 0\nqalloc Q0"],
+                                              ["stop", 0]]},
 ]
 
 # netqasm's own quirk (negative address = alias of the last slot): tie only, not judged by the reference
@@ -505,15 +565,25 @@ def run(ctx):
     res.rule = ("one case = fresh 2-node network, 1-3 applications in sequence on one node, 1-4 text subroutines each "
                 "(3-11 statements, <= ~30 instructions, <= 4 virtual addresses, nested if/loop blocks, arrays, "
                 "free/re-alloc), 30% of the subroutines carry one faulty instruction; node capacity 2-5 vs unit "
-                "module 2-4; non-trivial = at least one quantum operation executed; distinct by message list")
+                "module 2-4; 40% of the cases on a node with register limit 1-3 below its qubit capacity (qalloc "
+                "refused by the register limit anywhere in an application, then further subroutines incl. "
+                "re-allocation of the refused address, and StopApp; the reference counts registers = merge classes); "
+                "the Lean model's node has no register limit: a plain qalloc refused by it is shown to the driver as "
+                "an instruction that raises without effect (so the tie demands exact roll-back from then on), cases "
+                "where that is not possible (refusal inside a loop) leave the tie at that message and are judged "
+                "by the oracle only; non-trivial = at least one quantum operation executed; distinct by message list")
     rng = ctx.rng
     all_lines = []
     seen_keys = {}
 
     def handle(case, viol, runner, judged=True):
         nops = sum(1 for n in runner.names for (_l, w, _d) in runner.lines[n] if "| new:" in w or " g1:" in w or " meas:" in w)
-        res.case({"cap": case["cap"], "msgs": case["msgs"]}, nontrivial=nops > 0)
+        res.case({k: case[k] for k in ("cap", "regs", "msgs") if k in case}, nontrivial=nops > 0)
         res.count("cases")
+        if case.get("regs") is not None:
+            res.count("cases:register-limit")
+        res.count("tie:refusal-shown-as-failing-instruction", runner.substituted)
+        res.count("tie:messages-oracle-only", sum(runner.untied.values()))
         res.count("messages", len(case["msgs"]))
         if judged:
             for key, what, _i in viol:
@@ -541,10 +611,12 @@ def run(ctx):
             case = dict(case)
             viol, runner = execute(case)
             handle(case, [], runner, judged=False)
-        n = ctx.scale(1200, 15000)
+        n = ctx.scale(1000, 15000)
         for _ in range(n):
-            case = {"seed": rng.randrange(1 << 30), "cap": rng.choice([2, 3, 4, 4, 5]), "msgs": [],
-                    "plan": plan_for(rng, ctx.thorough)}
+            case = {"seed": rng.randrange(1 << 30), "cap": rng.choice([2, 3, 4, 4, 5]), "msgs": []}
+            if rng.random() < 0.4:
+                case["regs"] = rng.randrange(1, min(3, case["cap"] - 1) + 1)
+            case["plan"] = plan_for(rng, ctx.thorough, tight="regs" in case)
             viol, runner = execute(case, gen_rng=random.Random(rng.randrange(1 << 30)), res=res)
             case.pop("plan", None)
             handle(case, viol, runner)
